@@ -501,7 +501,7 @@ func (g *Gen) scalarExpr(sc scope) string {
 			}
 		case 4:
 			if g.r.Chance(0.3) || (g.PropEmphasis && g.r.Chance(0.4)) {
-				return "q." + pick(g.r, []string{"name", "Title", "Other", "title"})
+				return "q." + pick(g.r, []string{"name", "Title", "Other", "title", "Label", "Count", "Label"})
 			}
 			return "p." + pick(g.r, []string{"Name", "Age", "Upper", "nick", "Tags", "PtrLen", "nope", "ID", "slug", "Base", "Slug", "Fail"})
 		}
@@ -727,7 +727,7 @@ func (g *Gen) node(sc *scope, depth int) *TNode {
 			}
 		}
 		inner := sc.clone()
-		inner.anys = append(inner.anys, v, v+"[0]", v+"[1]", v+".name", v+".Title")
+		inner.anys = append(inner.anys, v, v+"[0]", v+"[1]", v+".name", v+".Title", v+".Label")
 		g.loop++
 		g.loopVars = append(g.loopVars, v)
 		n := g.trim(&TNode{K: "block", S: args, C: g.Nodes(inner, depth+1, 4)})
@@ -735,7 +735,7 @@ func (g *Gen) node(sc *scope, depth int) *TNode {
 		g.loop--
 		if strings.Contains(args, "recs") && g.r.Chance(0.6) {
 			// records: read a property of the loop variable (one site, several record types)
-			n.C = append([]*TNode{{K: "obj", S: v + "." + pick(g.r, []string{"name", "Title", "Other", "n"})}}, n.C...)
+			n.C = append([]*TNode{{K: "obj", S: v + "." + pick(g.r, []string{"name", "Title", "Other", "n", "Label", "Label", "Count"})}}, n.C...)
 		}
 		if name == "for" && g.r.Chance(0.3) {
 			n.Cl = append(n.Cl, &Clause{S: "else", C: g.Nodes(*sc, depth+1, 2)})
